@@ -70,6 +70,40 @@ Definition model_paths : paths := {|
   p_convert_erc20      := [LBankToModule PCaller ARequested; LBankBurn ARequested; LErcTransfer PModule PRecipient ARequested];
   p_bank_msg_send      := [LBankMsgSend PCaller PRecipient ARequested] |}.
 
+(** the same table with, per step, whether the Go code checks the error of that ledger operation and hands it on
+    to its caller at every level (false: the error is dropped, assigned to a shadowing variable, …) *)
+Record paths_e := {
+  pe_send_to_bank_coin : list (lstep * bool);   pe_send_to_bank_erc20 : list (lstep * bool);
+  pe_send_to_evm_coin : list (lstep * bool);    pe_send_to_evm_erc20 : list (lstep * bool);
+  pe_convert_coin : list (lstep * bool);        pe_convert_erc20 : list (lstep * bool);
+  pe_bank_msg_send : list (lstep * bool) }.
+
+Definition strip (P : paths_e) : paths := {|
+  p_send_to_bank_coin := map fst (pe_send_to_bank_coin P);   p_send_to_bank_erc20 := map fst (pe_send_to_bank_erc20 P);
+  p_send_to_evm_coin := map fst (pe_send_to_evm_coin P);     p_send_to_evm_erc20 := map fst (pe_send_to_evm_erc20 P);
+  p_convert_coin := map fst (pe_convert_coin P);             p_convert_erc20 := map fst (pe_convert_erc20 P);
+  p_bank_msg_send := map fst (pe_bank_msg_send P) |}.
+
+Definition all_paths_e (P : paths_e) : list (list (lstep * bool)) :=
+  [pe_send_to_bank_coin P; pe_send_to_bank_erc20 P; pe_send_to_evm_coin P; pe_send_to_evm_erc20 P;
+   pe_convert_coin P; pe_convert_erc20 P; pe_bank_msg_send P].
+
+Definition errors_propagated (P : paths_e) : bool := forallb (forallb snd) (all_paths_e P).
+
+(** what a path DOES when an error is not propagated: the failed operation is skipped and the path goes on *)
+Fixpoint run_steps_e (t : tok) (d : denom) (caller to : acct) (x : Z) (sg : st * Z) (p : list (lstep * bool)) : option (st * Z) :=
+  match p with
+  | [] => Some sg
+  | (l, checked) :: r =>
+      match run_step t d caller to x sg l with
+      | Some sg' => run_steps_e t d caller to x sg' r
+      | None => if checked then None else run_steps_e t d caller to x sg r
+      end
+  end.
+
+Definition run_path_e (p : list (lstep * bool)) (s : st) (t : tok) (d : denom) (caller : acct) (x : Z) (to : acct) : option st :=
+  r <- run_steps_e t d caller to x (s, 0) p ;; Some (fst r).
+
 (** the keeper's ERC20 Transfer helper (erc20.go): what [measured_transfer] encodes *)
 Inductive reject_test := RejLe0 | RejLt0 | RejNone | RejUnknown.
 Record transfer_helper := {
